@@ -206,6 +206,8 @@ def run(ctx):
     r5(ctx)
     ctx.rule("R6", "template scanner keeps literal text: the position literal fragments are cut from advances only when a variable was consumed (a `$` that is no variable stays in the text)")
     r6(ctx)
+    ctx.rule("R9", "wherever the matching engine distinguishes variables by their named-only flag, the non-capturing hole (Dropped) and the capture (Capture) of the same sigil count are treated alike")
+    r9(ctx)
     ctx.rule("R8", "`$_`/`$$_` accept exactly the nodes `$A`/`$$A` accept: both arms of match_leaf_meta_var reject exactly (named-only variable, unnamed candidate) — decided by evaluating each arm over the four cases")
     r8(ctx)
     ctx.rule("R7", "a spelling is accepted as a variable only after every character of its name passed the shared character class (or the name is empty / the text is exactly the sigils)")
@@ -546,3 +548,108 @@ def r8(ctx):
         same = tables["Capture"] == tables["Dropped"]
         ctx.ob("R8", "match_leaf_meta_var/Dropped and Capture agree on which nodes they stand for", same,
                "identical truth tables" if same else "the non-capturing hole and the capture of the same sigil count accept different nodes", where=f0.loc())
+
+
+def arm_bool_value(f, start, region, n_val, limit=60, x_val=None):
+    """value ('true'/'false'/None) of every bool local assigned while running straight through `region` from block `start`, when a bool
+    read through a MetaVariable::Capture/Dropped payload has the value n_val"""
+    T = {"true": True, "false": False}
+    S = {True: "true", False: "false"}
+    env = {}
+    b = start
+    steps = 0
+    while b in region and steps < limit:
+        steps += 1
+        for s_ in f.blocks[b]["s"]:
+            if s_[0] != "A" or s_[1][1]:
+                continue
+            l, rv = s_[1][0], s_[2]
+            def val(op):
+                if op[0] == "k":
+                    return op[1].get("v") if op[1].get("ty") == "bool" else None
+                if not op[1][1] and op[1][0] in env:
+                    return env[op[1][0]]
+                for o in f.trace_operand(op):
+                    if any(("Capture" in str(p_) or "Dropped" in str(p_)) for p_ in o.proj):
+                        return S[n_val]
+                if x_val is not None and not op[1][1] and f.locals[op[1][0]] == "bool":
+                    return S[x_val]       # a flag computed outside the arm (e.g. `loose`): the same opaque value in both arms
+                return None
+            v = None
+            if rv[0] == "use":
+                v = val(rv[1])
+            elif rv[0] == "un" and rv[1] == "Not":
+                x = val(rv[2])
+                v = S[not T[x]] if x in T else None
+            elif rv[0] == "bin" and rv[1] in ("Eq", "Ne", "BitAnd", "BitOr", "BitXor"):
+                x, y = val(rv[2]), val(rv[3])
+                if x in T and y in T:
+                    a, c = T[x], T[y]
+                    v = S[{"Eq": a == c, "Ne": a != c, "BitAnd": a and c, "BitOr": a or c, "BitXor": a != c}[rv[1]]]
+            if f.locals[l] == "bool":
+                env[l] = v
+        t = f.blocks[b]["t"]
+        nxt = [x for x in f.succ[b] if not f.blocks[x].get("c")]
+        if t[0] == "call":
+            c = f.call_at(b)
+            if c is not None and c.dest and not c.dest[1] and f.locals[c.dest[0]] == "bool":
+                if c.name == "not" and (c.callee.get("trait") or "").endswith("ops::bit::Not") and c.args:
+                    x = None
+                    a = c.args[0]
+                    if a[0] == "k":
+                        x = a[1].get("v") if a[1].get("ty") == "bool" else None
+                    elif not a[1][1] and a[1][0] in env:
+                        x = env[a[1][0]]
+                    elif any(("Capture" in str(p_) or "Dropped" in str(p_)) for o in f.trace_operand(a) for p_ in o.proj):
+                        x = S[n_val]
+                    env[c.dest[0]] = S[not T[x]] if x in T else None
+                else:
+                    env[c.dest[0]] = None
+        if t[0] == "switch" and t[1][0] != "k" and not t[1][1][1]:
+            sv = env.get(t[1][1][0])
+            if sv not in T and x_val is not None and f.locals[t[1][1][0]] == "bool" and t[1][1][0] not in env:
+                sv = S[x_val]
+            if sv in T:
+                si = f.switch_info(b)
+                if si and "true" in si["arms"]:
+                    nxt = [si["arms"][sv]]
+                    region = set(region) | {nxt[0]}
+        if len(nxt) != 1:
+            break
+        b = nxt[0]
+    return env
+
+
+def r9(ctx):
+    """`$_` is `$A` without the binding and `$$_` is `$$A` without the binding — in every place where the engine asks whether a variable
+    is named-only.  For each function of the matching engine that dispatches on MetaVariable and treats Capture depending on its flag,
+    the Dropped arm must compute the same boolean from its flag (evaluated for both flag values)."""
+    prog = ctx.prog
+    n = 0
+    for f in sorted(prog.find_fns(r"^ast_grep_core::match_tree::"), key=lambda f: f.id):
+        if f.id.endswith("match_leaf_meta_var"):
+            continue       # R8 evaluates it together with the candidate's namedness
+        for bi, si in [(b, f.switch_info(b)) for b in sorted(f.live_blocks)]:
+            if not si or not si.get("enum") or not si["enum"].endswith("meta_var::MetaVariable") or "Capture" not in si["arms"] or "Dropped" not in si["arms"]:
+                continue
+            arms = arm_blocks(f, si)
+            tabs = {}
+            cases = [(a, b) for a in (True, False) for b in (True, False)]
+            for v in ("Capture", "Dropped"):
+                tabs[v] = {}
+                for n_val, x_val in cases:
+                    env = arm_bool_value(f, si["arms"][v], arms.get(v, set()) | {si["arms"][v]}, n_val, x_val=x_val)
+                    tabs[v][(n_val, x_val)] = env
+            common = set.intersection(*[set(tabs[v][c]) for v in tabs for c in cases])
+            if not common:
+                continue
+            dep = [l for l in common if len({tabs[v][c].get(l) for v in tabs for c in cases}) > 1]
+            n += 1
+            bad = [l for l in common if any(tabs["Capture"][c].get(l) != tabs["Dropped"][c].get(l) for c in cases)]
+            ctx.ob("R9", "%s/switch#%d: Dropped treated like Capture" % (f.id, sum(1 for b2 in sorted(f.live_blocks) if b2 < bi and (f.switch_info(b2) or {}).get("enum", "") and str(f.switch_info(b2).get("enum")).endswith("meta_var::MetaVariable"))),
+                   not bad,
+                   "both arms give `%s` the same value for named-only = true and false%s" % (", ".join(f.local_name(l) for l in sorted(common)), "" if dep else " (independent of the flag)") if not bad else
+                   "the Dropped arm and the Capture arm give `%s` different values for the same named-only flag (Capture: %s, Dropped: %s): `$_`/`$$_` no longer behave like `$A`/`$$A` without the binding"
+                   % (", ".join(f.local_name(l) for l in bad), {k: {f.local_name(l): v.get(l) for l in bad} for k, v in tabs["Capture"].items()}, {k: {f.local_name(l): v.get(l) for l in bad} for k, v in tabs["Dropped"].items()}),
+                   where=f.loc())
+    ctx.floor("R9", "MetaVariable dispatches in the matching engine comparing Capture and Dropped", n, 1)   # should_skip_goal (two on the reviewed tree; a merged match has one)
